@@ -733,6 +733,15 @@ pub fn catalog() -> Vec<Case> {
       let mut results = CallResults::new(); results.insert("1".into(), CallServiceResult::ok(&json!([1, 2])));
       out.push(Case { label: "scalar-iterator-clash".into(), note: "a scalar and a fold iterator with the same name; second run, the service answered [1,2]".into(),
         air, prev: first.data, cur: vec![], peer: v.clone(), init_id: vid.clone(), particle: "c01".into(), results, raw_results: None, outside_quantifier: false, abort_risk: false }); }
+    // 6b. a stream written outside every open `new` scope of the same name (no crafted data): before the repair in /repo
+    //     (fix: 77bc49e) the scoped embodiments were dropped and a later scope end hit `get_mut(&name).unwrap()` on None
+    for (tag, body) in [("stream", r#"(seq (xor (match i 3 (ap i $s)) (null)) (new $s (next i)))"#), ("stream-always", r#"(seq (ap i $s) (new $s (next i)))"#),
+                        ("stream-map", r#"(seq (xor (match i 3 (ap ("k" i) %s)) (null)) (new %s (next i)))"#), ("stream-nested", r#"(new $s (seq (new $t (seq (ap i $s) (next i))) (ap i $t)))"#)] {
+      let air = format!(r#"(seq (call "{vid}" ("s" "arr") [] arr) (fold arr i {body}))"#);
+      let first = crate::host::run(&RunArgs { air: &air, prev: &[], cur: &[], init_peer_id: &vid, peer: &v, particle_id: "c01", timestamp: TS, ttl: TTL, results: &CallResults::new(), limits: Limits::unlimited() });
+      let mut results = CallResults::new(); results.insert("1".into(), CallServiceResult::ok(&json!([1, 2, 3])));
+      out.push(Case { label: format!("write-outside-open-new-scope-{tag}"), note: "a stream is written from outside every open `new` scope of that name while no global embodiment exists yet; second run, the service answered [1,2,3]".into(),
+        air, prev: first.data, cur: vec![], peer: v.clone(), init_id: vid.clone(), particle: "c01".into(), results, raw_results: None, outside_quantifier: false, abort_risk: false }); }
     // 10. error_code above i64::MAX
     for (code, tag) in [("18446744073709551615", "u64max"), ("9223372036854775808", "i64max+1"), ("9223372036854775807", "i64max"), ("-9223372036854775808", "i64min"), ("1e400", "float-overflow"), ("1.5", "float")] {
         let mut c = Craft::empty();
